@@ -11,16 +11,20 @@ package main
 // what shows in each of five attempts.
 
 import (
+	"bytes"
 	"encoding/hex"
 	"encoding/json"
 	"fmt"
 	"os"
+	"os/exec"
+	"os/signal"
 	"path/filepath"
 	"regexp"
 	"sort"
 	"strconv"
 	"strings"
 	"sync"
+	"syscall"
 	"time"
 
 	"github.com/rogpeppe/go-internal/testscript"
@@ -30,7 +34,10 @@ import (
 
 type DlScript struct {
 	Name string `json:"name"`
-	Mode string `json:"mode"` // sleep | block | trapexit | ignore | exitat | exitabs | builtin | bgignore
+	Mode string `json:"mode"` // sleep | block | trapexit | ignore | exitat | exitabs | builtin | lateignore | bgignore
+	// lateignore (job with ContinueOnError): two foreground commands that ignore the interrupt, one
+	// after the other: the second one starts after the first has been killed, i.e. inside the last
+	// grace period before the deadline, and has to be killed one grace period after it was interrupted
 	// exitabs: the command exits (status 0) OffUs microseconds after the moment the context expires
 	// (Deadline - 2 grace periods), whenever it was started
 	// bgignore (only with TSBATCH_BG_DEADLINE=1, see mainC17): a BACKGROUND command that ignores
@@ -42,11 +49,15 @@ type DlScript struct {
 }
 
 type DeadlineJob struct {
-	UntilMs int        `json:"until_ms"`
-	Scripts []DlScript `json:"scripts"`
-	Par     int        `json:"par,omitempty"`
-	Procs   int        `json:"procs,omitempty"`
-	SeqT    bool       `json:"seq_t,omitempty"` // a T that runs the subtests one after the other
+	UntilMs         int        `json:"until_ms"`
+	Scripts         []DlScript `json:"scripts"`
+	Par             int        `json:"par,omitempty"`
+	Procs           int        `json:"procs,omitempty"`
+	SeqT            bool       `json:"seq_t,omitempty"` // a T that runs the subtests one after the other
+	ContinueOnError bool       `json:"continue_on_error,omitempty"`
+	// IgnoreQuit: the process that calls RunT ignores SIGQUIT (signal.Ignore), so every command the
+	// scripts start ignores the interrupt of waitOrStop from its very first instruction
+	IgnoreQuit bool `json:"ignore_quit,omitempty"`
 }
 
 func (s *DlScript) text(obsDir string, ctxExpiry time.Time) string {
@@ -63,6 +74,9 @@ func (s *DlScript) text(obsDir string, ctxExpiry time.Time) string {
 	case "exitabs":
 		return fmt.Sprintf("# exits at the expiry of the context %+d us\n%sexec helper deadline exitabs %d %s\n", s.OffUs, neg,
 			ctxExpiry.Add(time.Duration(s.OffUs)*time.Microsecond).UnixNano(), log)
+	case "lateignore":
+		// plain /bin/sleep: it ignores the interrupt because the job runs with SIGQUIT ignored (IgnoreQuit)
+		return "# two commands ignoring the interrupt, the second started after the first was killed\nexec sleep 1000\nexec sleep 1001\n"
 	case "bgignore":
 		return fmt.Sprintf("# background command ignoring the signals\nexec helper deadline ignore 0 %s &\nexec helper deadline exitat 50 %s\n", log, log+"2")
 	default:
@@ -96,8 +110,11 @@ func runDeadlineChild(job *Job) {
 		par = 8
 	}
 	root := &rootT{release: make(chan struct{}), sem: make(chan struct{}, par), seq: dl.SeqT}
+	if dl.IgnoreQuit {
+		signal.Ignore(syscall.SIGQUIT)
+	}
 	res.T0 = t0.UnixNano()
-	p := testscript.Params{Files: files, Deadline: deadline}
+	p := testscript.Params{Files: files, Deadline: deadline, ContinueOnError: dl.ContinueOnError}
 	ran := make(chan struct{})
 	go func() {
 		defer close(ran)
@@ -129,7 +146,7 @@ var reStart = regexp.MustCompile(`(?m)^start (\d+) (\d+)$`)
 
 func helperPids(dir string) []int {
 	var pids []int
-	logs, _ := filepath.Glob(filepath.Join(dir, "obs", "dl-*.log"))
+	logs, _ := filepath.Glob(filepath.Join(dir, "obs", "dl-*.log*"))
 	for _, l := range logs {
 		b, _ := os.ReadFile(l)
 		for _, m := range reStart.FindAllStringSubmatch(string(b), -1) {
@@ -299,6 +316,15 @@ func (rn *runner) evalDeadline(dl *DeadlineJob) ([]dlFinding, map[string]int) {
 			counts["class:background-ignoring"]++
 			continue
 		}
+		if s.Mode == "lateignore" {
+			// only the general oracles (done by the deadline + slack, no child left) and the verdict
+			counts["class:started-late"]++
+			msgB, _ := hex.DecodeString(rn.msgHex())
+			if !(o.Verdict == "FAIL" && strings.Contains(o.Log, string(msgB))) {
+				add("impl-violation", "deadline/verdict", fmt.Sprintf("script %s: two blocked commands under ContinueOnError were reported %s without the timed-out message", s.Name, o.Verdict), "", tail(o.Log, 300))
+			}
+			continue
+		}
 		switch {
 		case blocked:
 			counts["class:blocked"]++
@@ -389,6 +415,16 @@ func lateBucket(name string, d int64) string {
 		return name + ":60-150ms"
 	}
 	return name + ":>=150ms"
+}
+
+// msgHex asks the model for the timed-out message of the source (hex).
+func (rn *runner) msgHex() string {
+	for _, kv := range strings.Fields(rn.ask("deadline 1000000000 0 - - 0 1 0")) {
+		if v, ok := strings.CutPrefix(kv, "msg="); ok {
+			return v
+		}
+	}
+	return ""
 }
 
 func genDeadlineJob(r *common.RNG, id int) DeadlineJob {
@@ -577,6 +613,11 @@ func (rn *runner) mainC17() {
 		{Name: "q0", Mode: "exitat", Ms: 20}, {Name: "q1", Mode: "exitat", Ms: 30}, {Name: "q2", Mode: "builtin"},
 		{Name: "q3", Mode: "exitat", Ms: 10}, {Name: "q4", Mode: "exitat", Ms: 40},
 	}}, "hand-sequential-T"})
+	// a command that is started inside the last grace period (its predecessor was killed one grace
+	// period before the deadline; ContinueOnError lets the script go on) and ignores the interrupt
+	items = append(items, item{DeadlineJob{UntilMs: 700, Par: 8, Procs: 4, ContinueOnError: true, IgnoreQuit: true, Scripts: []DlScript{
+		{Name: "late0", Mode: "lateignore"}, {Name: "late1", Mode: "lateignore"},
+	}}, "hand-started-late"})
 	// many commands that exit within +-2 ms of the expiry of the context: the helper goroutine of
 	// waitOrStop then meets a process that has just been reaped (os.ErrProcessDone) in some of them
 	rounds := 3
@@ -598,6 +639,7 @@ func (rn *runner) mainC17() {
 	for i := 0; i < n; i++ {
 		items = append(items, item{genDeadlineJob(r, i), "generated"})
 	}
+	rn.goTestDeadline()
 	var wg sync.WaitGroup
 	ch := make(chan int)
 	for w := 0; w < 4; w++ {
@@ -615,4 +657,77 @@ func (rn *runner) mainC17() {
 	close(ch)
 	wg.Wait()
 	res.Rule = fmt.Sprintf("two hand-written jobs (deadline 0.5 s and 2.4 s, one script per behaviour: /bin/sleep, exits on the interrupt, ignores it, finishes early, exits at the expiry of the context, negated blocking command, no subprocess) and %d generated jobs of 2-4 parallel scripts with deadlines 0.4-3 s; four jobs at a time; a finding is reported only when it shows in each of five attempts (timing tolerances: 40 ms early, 0.6 grace periods late); a sequential-T job; 3 (thorough: 12) rounds of 48 parallel commands exiting within +-2 ms of the context's expiry; a case is one script of one job, non-trivial when it runs a subprocess; distinct = distinct (deadline, behaviour, parameter, negation)", n)
+}
+
+// goTestDeadline: testscript.Run, the *testing.T entry point, in a real test binary started with
+// -test.timeout=60s and Params.Deadline one second away: the explicit, earlier deadline has to be the
+// one that counts (the blocked script fails with the timed-out message after about a second).
+func (rn *runner) goTestDeadline() {
+	bin := filepath.Join(rn.work, "runtest.test")
+	build := exec.Command("go", "test", "-c", "-o", bin, "verif/harness/cmd/tsbatch/runtest")
+	if out, err := build.CombinedOutput(); err != nil {
+		rn.res.Notes = append(rn.res.Notes, "go test -c of the testscript.Run probe failed: "+tail(string(out), 300))
+		return
+	}
+	const deadlineMs = 1000
+	in := map[string]string{"call": "testscript.Run(t, Params{Dir: <one script: exec sleep 1000>, Deadline: now+1s}) in a test binary run with -test.timeout=60s"}
+	late, noMsg := 0, 0
+	detail := ""
+	for attempt := 0; attempt < maxAttempts; attempt++ {
+		dir := filepath.Join(rn.work, fmt.Sprintf("gotest-%d", attempt))
+		os.MkdirAll(filepath.Join(dir, "scripts"), 0o777)
+		os.MkdirAll(filepath.Join(dir, "tmp"), 0o777)
+		os.WriteFile(filepath.Join(dir, "scripts", "blocked.txt"), []byte("exec sleep 1000\n"), 0o666)
+		cmd := exec.Command(bin, "-test.timeout=60s", "-test.v", "-test.run=TestParamsDeadline")
+		cmd.Env = []string{"PATH=/usr/bin:/bin", "HOME=/nonexistent", "TMPDIR=" + filepath.Join(dir, "tmp"), "GOTMPDIR=" + filepath.Join(dir, "tmp"),
+			"TSB_SCRIPT_DIR=" + filepath.Join(dir, "scripts"), fmt.Sprintf("TSB_DEADLINE_MS=%d", deadlineMs)}
+		cmd.Dir = dir
+		cmd.SysProcAttr = &syscall.SysProcAttr{Setpgid: true}
+		var out bytes.Buffer
+		cmd.Stdout, cmd.Stderr = &out, &out
+		t0 := time.Now()
+		if err := cmd.Start(); err != nil {
+			rn.res.Notes = append(rn.res.Notes, "cannot start the test binary: "+err.Error())
+			return
+		}
+		done := make(chan struct{})
+		go func() { cmd.Wait(); close(done) }()
+		killed := false
+		select {
+		case <-done:
+		case <-time.After(10 * time.Second):
+			killed = true
+			syscall.Kill(-cmd.Process.Pid, syscall.SIGKILL)
+			<-done
+		}
+		el := time.Since(t0)
+		syscall.Kill(-cmd.Process.Pid, syscall.SIGKILL)
+		os.RemoveAll(dir)
+		msg, _ := hex.DecodeString(rn.msgHex())
+		ok := !killed && el <= time.Duration(deadlineMs)*time.Millisecond+1500*time.Millisecond
+		hasMsg := len(msg) > 0 && strings.Contains(out.String(), string(msg))
+		rn.rmu.Lock()
+		rn.res.Count("src:go-test-binary")
+		rn.res.Case("gotest", true)
+		rn.rmu.Unlock()
+		if ok && hasMsg {
+			return
+		}
+		if !ok {
+			late++
+		}
+		if !hasMsg {
+			noMsg++
+		}
+		detail = fmt.Sprintf("Params.Deadline 1 s away, -test.timeout=60s: the test binary ran %v (killed after 10 s: %v); output: %s", el.Round(time.Millisecond), killed, tail(out.String(), 400))
+	}
+	rn.rmu.Lock()
+	defer rn.rmu.Unlock()
+	if late == maxAttempts {
+		rn.res.Violate(common.Violation{Kind: "impl-violation", Oracle: "deadline/params-deadline-ignored", Key: "gotest-late", Input: in,
+			Detail: detail + fmt.Sprintf(" (in each of %d attempts)", maxAttempts)})
+	} else if noMsg == maxAttempts {
+		rn.res.Violate(common.Violation{Kind: "impl-violation", Oracle: "deadline/verdict", Key: "gotest-msg", Input: in,
+			Detail: "the blocked script of the test binary was not reported with the timed-out message: " + detail})
+	}
 }
